@@ -8,7 +8,7 @@ from .. import specgen as G
 from .. import valuegen as V
 
 LEVEL = "proof"
-N = {"quick": 150, "thorough": 9000}
+N = {"quick": 150, "thorough": 2500}
 
 WRAPPERS = [re.compile(p) for p in (
     r"^default value for .* in .* does not validate its schema$",
